@@ -255,7 +255,8 @@ func (o *c15Oracle) close() {
 	// requirements.yaml contents (and, with allPairs, duplicate Chart.yaml files) onto those
 	frontier := map[string]*chart.Metadata{c15CoqMeta(empty): empty}
 	done := map[string]bool{}
-	for round := 0; round < 2; round++ {
+	// four rounds: Chart.yaml, a duplicate, requirements.yaml, a duplicate
+	for round := 0; round < 4 && len(o.metas) < 300; round++ {
 		next := map[string]*chart.Metadata{}
 		for _, mk := range sortedKeys(frontier) {
 			m := frontier[mk]
